@@ -12,7 +12,14 @@ func zzH_CLI() {
 	K := vParam("cli.K", 2)
 	m := newZZMsgs(8)
 	m.out = make(chan []byte, 8)
-	conn := NewConnWithCodec(NewClientCodec(&zzBytesCodec{}, nil, m, 64))
+	var enc Encoder
+	switch vChoose("header-encoder", vParam("cli.encoders", 1)) {
+	case 1:
+		enc = NewHeaderEncoder("pb")()
+	case 2:
+		enc = NewHeaderEncoder("code")()
+	}
+	conn := NewConnWithCodec(NewClientCodec(&zzBytesCodec{}, enc, m, 64))
 	mode := vChoose("mode", 3)
 	switch mode {
 	case 1:
@@ -47,9 +54,16 @@ func zzH_CLI() {
 		var got []rq
 		for i := 0; i < K; i++ {
 			f := <-m.out
-			var r pbRequest
-			r.Unmarshal(f)
-			got = append(got, rq{r.Seq, r.Args})
+			if enc == nil {
+				var r pbRequest
+				r.Unmarshal(f)
+				got = append(got, rq{r.Seq, r.Args})
+			} else {
+				r := enc.NewRequest()
+				r.Reset()
+				enc.NewCodec().Unmarshal(f, r)
+				got = append(got, rq{r.GetSeq(), r.GetArgs()})
+			}
 		}
 		order := []int{0, 1, 2}[:K]
 		if K == 2 && vChoose("order", 2) == 1 {
@@ -64,13 +78,13 @@ func zzH_CLI() {
 			}
 			if vChoose("fail", 2) == 1 {
 				failWith[i] = "E" + string(rune('0'+i))
-				m.deliver(zzResponse(got[i].seq, failWith[i], nil))
+				m.deliver(zzResponseEnc(enc, got[i].seq, failWith[i], nil))
 			} else if vParam("cli.empty", 1) == 1 && vChoose("emptyreply", 2) == 1 {
 				// a handler whose reply encodes to zero bytes (e.g. an all-default pb message)
 				emptyReply[i] = true
-				m.deliver(zzResponse(got[i].seq, "", nil))
+				m.deliver(zzResponseEnc(enc, got[i].seq, "", nil))
 			} else {
-				m.deliver(zzResponse(got[i].seq, "", zzReplyFor(got[i].args)))
+				m.deliver(zzResponseEnc(enc, got[i].seq, "", zzReplyFor(got[i].args)))
 			}
 		}
 		vQuiesce()
